@@ -701,6 +701,10 @@ class Evaluator(object):
             return Unknown('%s.%s' % (base.what, e.attr))
         if isinstance(base, Sym):
             return Sym(base.module, '%s.%s' % (base.name, e.attr))
+        if base is None and not e.attr.startswith('__'):
+            # python: 'NoneType' object has no attribute ...
+            raise Raised("AttributeError(\"'NoneType' object has no "
+                         "attribute %r\")" % e.attr)
         self.err(e, 'attribute of %r' % (base,))
 
     def x_Subscript(self, e, env):
